@@ -34,6 +34,33 @@ func utf8String(rng *rand.Rand, maxParts int) string {
 	return b.String()
 }
 
+// lenientUnescape decodes the well-formed percent escapes (and '+') of a form value and leaves everything else as it is.
+func lenientUnescape(v string) string {
+	var b strings.Builder
+	for i := 0; i < len(v); i++ {
+		switch {
+		case v[i] == '+':
+			b.WriteByte(' ')
+		case v[i] == '%' && i+2 < len(v):
+			h, ok1 := unhexb(v[i+1])
+			l, ok2 := unhexb(v[i+2])
+			if ok1 && ok2 {
+				b.WriteByte(h<<4 | l)
+				i += 2
+			} else {
+				b.WriteByte('%')
+			}
+		default:
+			b.WriteByte(v[i])
+		}
+	}
+	return b.String()
+}
+
+// ancientInstants lie in the past whatever the clock says; several are the zero value of some date type.
+var ancientInstants = []string{"0001-01-01T00:00:00Z", "0001-01-01T00:00:00.000Z", "0001-01-01T00:00:00.000000Z", "0001-01-01T00:00:01Z", "0001-01-02T00:00:00Z",
+	"1601-01-01T00:00:00Z", "1753-01-01T00:00:00Z", "1900-01-01T00:00:00Z", "1969-12-31T23:59:59Z", "1970-01-01T00:00:00Z", "1970-01-01T00:00:00.000Z", "1970-01-01T00:00:01Z", "1677-09-21T00:12:43Z"}
+
 func c13Case(r *core.Run, idx int, rng *rand.Rand) {
 	const wl = "logout_requests"
 	layout := timeLayouts[rng.Intn(len(timeLayouts))]
@@ -98,6 +125,9 @@ func c13Case(r *core.Run, idx int, rng *rand.Rand) {
 	case 0:
 		issued = "future"
 		l.IssueInstant = fmtTS(now.Add(farFuture(rng)))
+		if rng.Intn(6) == 0 {
+			l.IssueInstant = []string{"9999-12-31T23:59:59Z", "9999-12-31T23:59:59.999999999Z", "2262-04-11T23:47:17Z", "5000-01-01T00:00:00.123Z"}[rng.Intn(4)]
+		}
 	case 1:
 		issued = "absent"
 		l.IssueInstant = ""
@@ -113,6 +143,11 @@ func c13Case(r *core.Run, idx int, rng *rand.Rand) {
 		if rng.Intn(3) == 0 {
 			// expired a moment ago, written with its fraction (whatever precision the IdP's own layout has)
 			l.NotOnOrAfter = tsFrac(now.Add(justPast(rng)), 3+rng.Intn(7))
+		} else if rng.Intn(5) == 0 {
+			// the ends of the representable range: the earliest instant of xs:dateTime / of Go's time.Time (what a
+			// serialised "minimum date" looks like), the Unix epoch and the instants next to them
+			expiry = "passed_long_ago"
+			l.NotOnOrAfter = ancientInstants[rng.Intn(len(ancientInstants))]
 		} else {
 			l.NotOnOrAfter = fmtTS(now.Add(farPast(rng)))
 		}
@@ -153,6 +188,14 @@ func c13Case(r *core.Run, idx int, rng *rand.Rand) {
 	if s.Binding == "redirect" && rng.Intn(2) == 0 {
 		s.Encoding = spsim.EncDeflate
 	}
+	// a RelayState pair as no encoder of net/url would write it: a raw semicolon (legal in a query, RFC 3986) or a
+	// percent sign that starts no escape. A reply that is not Success is fine; a Success has to come with the value
+	rawRelay := ""
+	if decodable && rng.Intn(12) == 0 {
+		rawRelay = []string{"a;b" + randHex(rng, 2), "v;w;x", "100%", "x%zz" + randHex(rng, 2), "%", "a%2", "50%25;" + randHex(rng, 2)}[rng.Intn(7)]
+		s.HasRelay, s.RawTail = false, "RelayState="+rawRelay
+		r.Count("raw_relay_state_pairs_sent", 1)
+	}
 	brokenStream := false
 	if s.Binding == "redirect" && decodable && rng.Intn(10) == 0 {
 		// the DEFLATE stream is damaged behind the blocks that carry the complete document: flushed but never finished,
@@ -185,7 +228,7 @@ func c13Case(r *core.Run, idx int, rng *rand.Rand) {
 	}
 	m := dd.Msg
 	slow := call.T1.Sub(call.T0) > 3*time.Second
-	mustFail := !decodable || !registered || (issued == "future" && !slow) || (expiry == "passed" && !slow)
+	mustFail := !decodable || !registered || (issued == "future" && !slow) || (strings.HasPrefix(expiry, "passed") && !slow)
 	if dd.Success() {
 		r.Count("success_replies", 1)
 		if mustFail {
@@ -200,7 +243,8 @@ func c13Case(r *core.Run, idx int, rng *rand.Rand) {
 	if mustFail {
 		r.Count("invalid_requests", 1)
 	}
-	if decodable {
+	// (a request whose parameters do not parse as a form may be refused before the message is looked at)
+	if decodable && (rawRelay == "" || dd.Success()) {
 		if !m.HasInResponse || m.InResponseTo != l.ID {
 			viol("in_response_to", fmt.Sprintf("InResponseTo %q, request ID %q", m.InResponseTo, l.ID))
 		}
@@ -227,8 +271,20 @@ func c13Case(r *core.Run, idx int, rng *rand.Rand) {
 		if s.HasRelay {
 			want = relay
 		}
-		// an absent field and an empty field are the same RelayState for the receiving party
-		if (!dd.HasRelay && want != "") || normNL(dd.RelayState) != normNL(want) {
+		if rawRelay != "" {
+			// accepted readings: the value with every well-formed escape decoded, or its part in front of the first
+			// semicolon (HTML 4 allowed ';' as a pair separator)
+			r.Count("raw_relay_state_pairs_answered_by_form", 1)
+			if dd.Success() {
+				r.Count("raw_relay_state_pairs_answered_with_success", 1)
+				whole := lenientUnescape(rawRelay)
+				part, _, _ := strings.Cut(rawRelay, ";")
+				if dd.RelayState != whole && dd.RelayState != lenientUnescape(part) {
+					viol("relay_state_changed", fmt.Sprintf("Success with RelayState field %q for a request whose RelayState pair was sent as %q", dd.RelayState, rawRelay))
+				}
+			}
+		} else if (!dd.HasRelay && want != "") || normNL(dd.RelayState) != normNL(want) {
+			// an absent field and an empty field are the same RelayState for the receiving party
 			viol("relay_state_changed", fmt.Sprintf("RelayState field %q, request %q", dd.RelayState, want))
 		}
 		r.Count("relay_checked", 1)
